@@ -86,6 +86,9 @@ func TestVerif_C09Remote(t *testing.T) {
 				if r.chance(20) {
 					if _, dup := be.RcptErr[w]; !dup {
 						be.RcptErr[w] = &smtp.SMTPError{Code: 550, EnhancedCode: smtp.EnhancedCode{5, 1, 1}, Message: "no such user"}
+						if r.chance(35) { // a connection-level refusal of this recipient
+							be.RcptErr[w] = &smtp.SMTPError{Code: 421, EnhancedCode: smtp.EnhancedCode{4, 4, 2}, Message: "closing the channel, try later"}
+						}
 						refused = append(refused, cBytes([]byte(w)))
 					}
 				}
